@@ -80,3 +80,16 @@ Example C04_boundary :
   option_map (fun s => map obs_of (ts s)) (run (init 1000000 0 false false) ls)
   = Some [TDone LFetching (Some 1) 0; TDone LHit (Some 1) 2; TUpstream LFetching].
 Proof. vm_compute. reflexivity. Qed.
+
+(** ** one clock: in the composed multi-key cache (Model/Multi.v) every key's
+    protocol state reads the same clock, whatever the schedule -- lifetimes and
+    ages of different keys are measured against one time line. *)
+From Coq Require Import NArith.
+From Pike Require Model.Dispatcher Model.Multi Proofs.MultiProofs.
+Theorem C04_one_clock_for_all_keys :
+  forall (K : Type) (keqb : K -> K -> bool), (forall a b, keqb a b = true <-> a = b) ->
+  forall (hash : K -> N) d t0 h st0 ls m,
+    Pike.Model.Multi.mrun keqb hash (Pike.Model.Multi.minit d t0 h st0) ls = Some m ->
+  forall k, now (Pike.Model.Multi.sys_of keqb m k) = Pike.Model.Multi.m_now m.
+Proof. intros K keqb Hk hash. exact (Pike.Proofs.MultiProofs.clock_shared keqb Hk hash). Qed.
+Print Assumptions C04_one_clock_for_all_keys.
